@@ -27,6 +27,7 @@ typedef struct {
     int codec;                  /* CODEC_* */
     int value_encoding;         /* ENC_PLAIN / ENC_PLAIN_DICT / ENC_RLE_DICT / others */
     int npages; int page_levels[8];  /* level entries per data page (0 pages => one page with everything) */
+    int uniform_page_levels;    /* > 0: every data page holds this many level entries (as many pages as needed); overrides npages */
     int level_form, index_form; /* REF_H_* */
     int index_bw_extra;         /* dictionary index bit width = minimal + extra */
     bool crc;
